@@ -220,6 +220,25 @@ def peer(run, model):
     run.cov["peer_disagreements"] = nbad
 
 
+def sanitized(run):
+    """thorough tier: the end-to-end and scripted-peer traffic once more with libcoap and the
+    driver compiled with ASan + UBSan (a memory error in the block code aborts the driver)"""
+    drv = vlib.build_driver("h_block_e2e", ["h_block_e2e.c"], variant="asan", wraps=E2E_WRAPS)
+    r = tie.rng_for(run, "c09-asan")
+    lines = [l for l in vlib.read_corpus("C09") if l.startswith(("e2e ", "peer "))]
+    lines += gen_block.e2e_boundary(r)
+    lines += gen_block.e2e_sched_random(r, 3000)
+    lines += [d for d, m in gen_block.peer_cases(r, 4000, 0.5)]
+    outs, crashes = vlib.run_lines_robust(drv, lines, timeout=1500,
+                                          env={"ASAN_OPTIONS": "detect_leaks=1:abort_on_error=0",
+                                               "UBSAN_OPTIONS": "halt_on_error=1"})
+    run.cov["asan_cases"] = len(lines)
+    run.cov["asan_crashes"] = len(crashes)
+    for (idx, rc, err) in crashes[:3]:
+        run.violation("sanitizer build: the driver aborted (rc=%d)" % rc,
+                      "case: %s\n%s\n" % (lines[idx], err), tag="asan%d" % idx)
+
+
 def main(run):
     run.cov["trusted_base"] = vlib.TRUSTED_COMMON + [
         "model: Block/BlockOpt.v Block/Slices.v Block/RecBlocks.v (transcriptions of the option "
@@ -234,3 +253,5 @@ def main(run):
     leaf(run, model, drv)
     e2e(run, model)
     peer(run, model)
+    if run.tier != "quick":
+        sanitized(run)
